@@ -666,7 +666,12 @@ func (v *fnVC) rangeFact(t T, ty types.Type) T {
 	case *types.Pointer, *types.Map, *types.Chan:
 		return or(eq(t, "0"), and(v.allocd(t), v.allocd(app("root", t))))
 	case *types.Interface:
-		return implies(app("isptrtag", app("itag", t)), or(eq(app("ipay", t), "0"), and(v.allocd(app("ipay", t)), v.allocd(app("root", app("ipay", t))))))
+		rf := implies(app("isptrtag", app("itag", t)), or(eq(app("ipay", t), "0"), and(v.allocd(app("ipay", t)), v.allocd(app("root", app("ipay", t))))))
+		if n, ok := ty.(*types.Named); ok && n.Obj().Name() == "Error" && inModule(n) {
+			// a value of static type ucfg.Error is nil or its dynamic type implements Error (by typing)
+			rf = and(rf, or(eq(t, "(mkI 0 0)"), app("impl_ucfg_Error", app("itag", t))))
+		}
+		return rf
 	}
 	if isString(ty) {
 		return and(app(">=", app("slen", t), "0"), app("<=", app("slen", t), "9223372036854775807"))
